@@ -30,6 +30,8 @@ def plan(tier, seed):
 	for attr in ATTRS:
 		for container in ('array', 'list'):
 			tasks.append(('t_perms', dict(attr=attr, container=container, nmax=nmax)))
+	for attr in ('key', 'ncbi_id'):
+		tasks.append(('t_many', dict(attr=attr, n=1200 if tier == 'quick' else 5000)))
 	tasks.append(('t_negative', dict()))
 	tasks.append(('t_dirs', dict()))
 	return tasks
@@ -133,6 +135,80 @@ def t_perms(attr, container, nmax):
 							sh.count('file_order_differs_from_genome_order')
 						sh.outcome([n, e, list(perm)])
 	sh.sample(dict(family='perms', **case))
+	return sh
+
+
+def t_many(attr, n):
+	"""A genome set larger than SQLite's bound-variable limit and than the query chunk size: n genomes with pairwise distinct signatures, the
+	signature file in a scrambled order with 50 unrelated signatures interspersed; alignment checked for every genome, distances for 40 probes;
+	then the same with one signature missing (must fail)."""
+	from gambit.db import ReferenceDatabase
+	from gambit.query import query, QueryParams
+	from gambit.metric import jaccarddist
+	sh = Shard()
+	ks = fixtures.kspec(8, 'AT')
+	gspecs = [dict(key=f'set/g{i:05d}', description=f'G{i}', taxon=0, ncbi_db='assembly', ncbi_id=100000 + i) for i in range(n)]
+	sigs = [sorted({i % 4 ** 8, (i * 7 + 1) % 4 ** 8, (i * 13 + 5000) % 4 ** 8, (i // 3) % 4 ** 8, 20000 + i}) for i in range(n)]      # pairwise distinct sets
+	order = sorted(range(n), key=lambda i: (i * 7919) % n)            # a scrambling permutation (7919 is prime, n is not a multiple)
+	entries = []
+	for pos, i in enumerate(order):
+		entries.append((gspecs[i][attr], sigs[i]))
+		if pos % (n // 50) == 0:
+			entries.append((f'unrelated{pos}' if attr == 'key' else 5 + pos, [pos % 4 ** 8, 60000]))
+	with fixtures.workdir('c04m') as d:
+		fixtures.write_genome_db(os.path.join(d, 'g.gdb'), TAXA, gspecs)
+		ids = [e[0] for e in entries]
+		fixtures.write_sigfile(os.path.join(d, 's.gs'), ks, [e[1] for e in entries], ids=np.array(ids) if attr == 'ncbi_id' else ids, id_attr=attr)
+		case = dict(attr=attr, many=n)
+		sh.evals += 1
+		db = ReferenceDatabase.load_from_dir(d)
+		try:
+			by_id = {g[attr]: i for i, g in enumerate(gspecs)}
+			fids = list(db.signatures.ids)
+			ok = len(db.genomes) == n and len({g.key for g in db.genomes}) == n
+			if ok:
+				for g, si in zip(db.genomes, db.sig_indices):
+					gi = by_id[getattr(g.genome, attr)]
+					stored = fids[si].item() if isinstance(fids[si], np.generic) else fids[si]
+					if stored != getattr(g.genome, attr) or np.asarray(db.signatures[si]).tolist() != sigs[gi]:
+						sh.violation('sig-index-id-mismatch', dict(case, genome=gi), getattr(g.genome, attr), stored)
+						ok = False
+						break
+			else:
+				sh.violation('genome-list', case, n, len(db.genomes))
+			if ok:
+				probes = list(range(0, n, n // 40))
+				qarrs = fixtures.sig_arrays(ks, [sigs[j] for j in probes])
+				for chunksize in (1000, 333):
+					res = query(db, qarrs, QueryParams(report_closest=n, chunksize=chunksize))
+					for j, item in zip(probes, res.items):
+						sh.evals += 1
+						got = {by_id[getattr(m.genome.genome, attr)]: float(m.distance) for m in item.closest_genomes}
+						if len(got) != n or got[j] != 0.0 or any(got[i] != float(jaccarddist(qarrs[probes.index(j)], np.array(sigs[i], dtype=ks.index_dtype))) for i in range(0, n, 37)):
+							sh.violation('distance-not-from-own-signature', dict(case, query=j, chunksize=chunksize), None, None)
+							ok = False
+							break
+					if not ok:
+						break
+			if ok:
+				sh.nontrivial += 1
+				sh.count('many_genome_databases')
+		finally:
+			db.signatures.close(); db.session.close()
+		# one signature missing somewhere in the middle
+		k = n // 2
+		ids2 = [x for x in ids if x != gspecs[k][attr]]
+		sg2 = [e[1] for e in entries if e[0] != gspecs[k][attr]]
+		os.unlink(os.path.join(d, 's.gs'))
+		fixtures.write_sigfile(os.path.join(d, 's.gs'), ks, sg2, ids=np.array(ids2) if attr == 'ncbi_id' else ids2, id_attr=attr)
+		sh.evals += 1
+		try:
+			db = ReferenceDatabase.load_from_dir(d)
+			db.signatures.close(); db.session.close()
+			sh.violation('incomplete-database-loaded', dict(attr=attr, n=n, why='one of many signatures missing', file_ids=[]), 'error', 'loaded')
+		except Exception:
+			sh.count('must_fail_missing_signature')
+	sh.sample(dict(family='many', attr=attr, n=n))
 	return sh
 
 
@@ -262,12 +338,15 @@ def finalize(agg, tier):
 	for c in ('files_with_unrelated_signatures', 'file_order_differs_from_genome_order', 'must_fail_missing_signature', 'must_fail_no_id_attr',
 	          'must_fail_genome_lacks_attribute', 'dirs_loading', 'dirs_refused'):
 		agg.require(c, 3)
+	agg.require('many_genome_databases', 2)
 
 
 def replay(case, kind=None):
 	from gambit.db import ReferenceDatabase
 	sh = Shard()
 	ks = fixtures.kspec(5, 'AT')
+	if 'many' in case:
+		return [v for v in t_many(case['attr'], case['many']).violations][:1]
 	if 'file_order' in case:
 		attr, n = case['attr'], case['n']
 		gspecs = genome_specs(n)
